@@ -92,6 +92,9 @@ pub fn run(id: &str, tier: Tier, seed: u64) -> i32 {
             return f(tier, seed);
         }
     }
+    if id == "C29I" {
+        return fuzz::print_input();
+    }
     if id == "C21R" {
         return sem::c21_repro();
     }
